@@ -70,7 +70,7 @@ Proof.
   - cbn [forallb2] in Hc. apply andb_true_iff in Hc as [Hp Hc].
     cbn [write_fields] in Hw. apply obind_ok in Hw as (a & Ha & Hw). apply obind_ok in Hw as (b & Hb & Hw).
     inversion Hw; subst hb. apply write_field_ok in Ha.
-    unfold pair_compat in Hp. apply andb_true_iff in Hp as [Hp _]. apply andb_true_iff in Hp as [Hbytes _].
+    unfold pair_compat in Hp. apply andb_true_iff in Hp as [Hbytes _].
     rewrite (nat_bytes_eq _ _ _ Hbytes) in Ha.
     cbn [read_fields zipvals]. unfold read_field.
     assert (Hlen : length a = ity_bytes (r_disk r)) by (subst a; apply le_encode_length).
@@ -218,46 +218,32 @@ Proof.
 Qed.
 
 (* ---- fits -> the writer accepts ------------------------------------------------------------ *)
-Lemma checked_in_range hdr i f w r :
-  pair_compat f w r = true -> w_cast w = Checked -> pair_fits hdr i w r = true ->
-  in_rangeb (w_disk w) (get hdr i (w_fld w)) = true.
-Proof.
-  unfold pair_compat. intros Hc Hk Hp. rewrite Hk in Hc.
-  apply andb_true_iff in Hc as [_ Hc]. apply andb_true_iff in Hc as [Hc Hnc].
-  apply andb_true_iff in Hc as [Hc Hfe]. apply andb_true_iff in Hc as [Hte Hsr].
-  apply ity_eqb_eq in Hte. apply fld_eqb_eq in Hfe. apply negb_true_iff in Hnc.
-  apply in_rangeb_spec. rewrite Hte.
-  assert (Hg := pair_fits_good _ _ _ _ Hp). rewrite <- Hfe, Hnc in Hg. destruct Hg as [Hg|Hg]; [discriminate|].
-  unfold backval in Hg. cbn [snd] in Hg.
-  set (v := get hdr i (w_fld w)) in *.
-  assert (Hr : in_range (r_disk r) (cast (r_disk r) v)) by apply cast_in_range.
-  assert (Hm : in_range (r_mem r) (cast (r_disk r) v)) by (eapply sub_range_spec; eauto).
-  rewrite (cast_id _ _ Hm) in Hg. rewrite <- Hg. exact Hr.
-Qed.
-
-Lemma fits_write_fields hdr i f ws rs :
-  forallb2 (pair_compat f) ws rs = true -> forallb2 (pair_fits hdr i) ws rs = true ->
+Lemma fits_write_fields hdr i ws :
+  forallb (fun w => match w_cast w with
+                    | Checked => in_rangeb (w_disk w) (get hdr i (w_fld w))
+                    | AsCast => true
+                    end) ws = true ->
   exists hb, write_fields hdr i ws = Ok hb.
 Proof.
-  revert rs. induction ws as [|w t IH]; destruct rs as [|r rs]; cbn [forallb2]; try discriminate.
+  induction ws as [|w t IH]; cbn [forallb].
   - eexists. reflexivity.
-  - rewrite !andb_true_iff. intros [Hc Hcs] [Hp Hps]. destruct (IH _ Hcs Hps) as [hb Hb].
+  - rewrite andb_true_iff. intros [Hc Hcs]. destruct (IH Hcs) as [hb Hb].
     cbn [write_fields]. unfold write_field at 1. destruct (w_cast w) eqn:K.
     + cbn [obind]. rewrite Hb. cbn. eauto.
-    + rewrite (checked_in_range _ _ _ _ _ Hc K Hp). cbn [obind]. rewrite Hb. cbn. eauto.
+    + rewrite Hc. cbn [obind]. rewrite Hb. cbn. eauto.
 Qed.
 
 Definition fits_parts (f : fmt) (i : instr) : Prop :=
   fields_fit f i = true /\ unstored_default f i = true /\ (is_tterminal f && looks_terminal f i) = false /\
-  alen i <= ISIZE_MAX.
+  alen i <= ISIZE_MAX /\ checks_pass f i = true.
 Lemma fitsb_spec f i : fitsb f i = true <-> fits_parts f i.
 Proof. unfold fitsb, fits_parts. rewrite !andb_true_iff, negb_true_iff, Z.leb_le. tauto. Qed.
 
 Lemma fits_write_ok f i : fmt_ok_p f -> fitsb f i = true ->
   exists hb, write_fields (f_hdr f) i (f_write f) = Ok hb /\ write_instr f i = Ok (hb ++ i_args i).
 Proof.
-  intros OK Hf. apply fitsb_spec in Hf as (Hff & Hu & Ht & Hl).
-  destruct (fits_write_fields _ _ _ _ _ (ok_compat _ OK) Hff) as [hb Hb].
+  intros OK Hf. apply fitsb_spec in Hf as (Hff & Hu & Ht & Hl & Hcp).
+  destruct (fits_write_fields _ _ _ Hcp) as [hb Hb].
   exists hb. split; [exact Hb|]. unfold write_instr.
   assert (G : (f_tguard f && looks_terminal f i) = false).
   { destruct (f_tguard f) eqn:G; [|reflexivity]. rewrite (ok_guard _ OK G) in Ht. exact Ht. }
@@ -290,7 +276,7 @@ Theorem instr_readback f i rest : fmt_ok f = true -> fitsb f i = true ->
 Proof.
   intros OK0 Hf. assert (OK := fmt_ok_spec _ OK0).
   destruct (fits_write_ok _ _ OK Hf) as (hb & Hb & Hw).
-  apply fitsb_spec in Hf as (Hff & Hu & Ht & Hl).
+  apply fitsb_spec in Hf as (Hff & Hu & Ht & Hl & Hcp).
   assert (Hlen : Z.of_nat (length hb) = f_hdr f) by (rewrite (sum_bytes_length _ _ _ _ Hb); apply (ok_sum _ OK)).
   assert (Hpos := ok_hdr _ OK).
   exists (hb ++ i_args i). split; [exact Hw|]. split; [|split].
@@ -358,12 +344,13 @@ Proof.
   - apply andb_true_iff in Hc as [He Hc]. apply fld_eqb_eq in He.
     assert (Hv : cast (r_mem r) (cast (r_disk r) (get hdr i (w_fld w))) = get hdr i (w_fld w)).
     { apply in_rangeb_spec in Hwf. apply orb_true_iff in Hc as [Hc|Hc].
-      - apply andb_true_iff in Hc as [Hc Hsr]. apply andb_true_iff in Hc as [Hc Hte]. apply ity_eqb_eq in Hte.
+      - apply andb_true_iff in Hc as [Hc Hms].
         assert (Hd : in_range (w_disk w) (get hdr i (w_fld w))).
         { unfold write_field in Hok. destruct (w_cast w).
           - eapply sub_range_spec; eauto.
           - destruct (in_rangeb (w_disk w) _) eqn:E; [now apply in_rangeb_spec|discriminate]. }
-        rewrite Hte in Hd. rewrite (cast_id _ _ Hd). apply cast_id. eapply sub_range_spec; eauto.
+        destruct (meet_sub_spec _ _ _ _ _ Hms Hwf Hd) as [Hrd Hrm].
+        rewrite (cast_id _ _ Hrd). now apply cast_id.
       - apply andb_true_iff in Hc as [Hc Hbits]. apply andb_true_iff in Hc as [Hc Hte]. apply ity_eqb_eq in Hte.
         rewrite Hte in Hwf. apply cast_cast_wide; auto. }
     unfold pair_fits. rewrite Hv, He. destruct (r_fld r); auto using Z.eqb_refl.
@@ -394,6 +381,26 @@ Proof.
   - apply IH; auto.
 Qed.
 
+Lemma term_unreachable_spec f i : term_unreachable f = true -> looks_terminal f i = false.
+Proof.
+  unfold term_unreachable, looks_terminal, cond_on. intro H. apply existsb_exists in H as ([g c] & Hin & Hc).
+  cbn [fst snd] in Hc. apply not_true_is_false. intro Hall. rewrite forallb_forall in Hall.
+  specialize (Hall _ Hin). cbn [fst snd] in Hall. apply Z.eqb_eq in Hall.
+  assert (0 <= alen i) by (unfold alen; lia).
+  destruct g; try discriminate; cbn [get] in Hall; apply Z.ltb_lt in Hc; lia.
+Qed.
+
+Lemma write_ok_checks hdr i ws : is_ok (write_fields hdr i ws) = true ->
+  forallb (fun w => match w_cast w with
+                    | Checked => in_rangeb (w_disk w) (get hdr i (w_fld w))
+                    | AsCast => true
+                    end) ws = true.
+Proof.
+  induction ws as [|w t IH]; [reflexivity|]. intro H. apply write_fields_ok_each in H as [H1 H2].
+  cbn [forallb]. rewrite (IH H2), andb_true_r. unfold write_field in H1.
+  destruct (w_cast w); [reflexivity|]. destruct (in_rangeb (w_disk w) _); [reflexivity|discriminate].
+Qed.
+
 Theorem no_silent_change f i :
   fmt_ok f = true -> all_checked f = true ->
   wf_instr f i = true -> unstored_default f i = true -> alen i <= ISIZE_MAX ->
@@ -405,10 +412,12 @@ Proof.
     destruct (f_tguard f && looks_terminal f i) eqn:G; [discriminate|].
     destruct (write_fields (f_hdr f) i (f_write f)) as [hb| | |] eqn:Hb; try discriminate. cbn [obind] in Hok.
     assert (Hfix : forall n, f_args f = ArgsFixed n -> alen i = n).
-    { intros n A. rewrite A in Hok. destruct (Z.eqb_spec (alen i) n); [auto|discriminate]. }
+    { intros n A. rewrite A in Hok. destruct (Z.eqb_spec (alen i) n); [auto|destruct (f_fixed_wdiag f); discriminate]. }
     apply fitsb_spec. repeat split; auto.
     + unfold fields_fit. eapply checked_write_fits; eauto. now rewrite Hb.
-    + destruct (is_tterminal f) eqn:T; [|reflexivity]. cbn [negb orb] in Hg. rewrite Hg in G. exact G.
+    + destruct (is_tterminal f) eqn:T; [|reflexivity]. cbn [negb orb] in Hg. cbn [andb].
+      apply orb_true_iff in Hg as [Hg|Hg]; [rewrite Hg in G; exact G|now apply term_unreachable_spec].
+    + unfold checks_pass. eapply write_ok_checks. now rewrite Hb.
   - intro Hf. destruct (fits_write_ok _ _ OK Hf) as (hb & _ & ->). reflexivity.
 Qed.
 
